@@ -14,6 +14,37 @@ EFFECT = ["bump()", "bump() + 1", "[bump(), 2]", "Vec[1, bump()]", '"x{bump()}y"
           "arr0[(arr0[0] = 1)]"]
 
 
+# one read of NAME in every syntactic position the read-set analysis has to visit; NAME is read nowhere else
+USE_AT = [
+    ("stmt-expr", "{ind}println({x})"),
+    ("binary-operand", "{ind}println(1 + {x})"),
+    ("unary-operand", "{ind}println(-{x})"),
+    ("and-or", "{ind}println({x} > 0 and true or false)"),
+    ("call-arg", "{ind}say({x})"),
+    ("assign-value", "{ind}m0 = {x}"),
+    ("if-expr-cond", "{ind}println(if {x} > 0 {{ 1 }} else {{ 2 }})"),
+    ("if-expr-branch", "{ind}println(if k0 > 0 {{ {x} }} else {{ 2 }})"),
+    ("if-stmt-cond", "{ind}if {x} > 100 {{ println(1) }}"),
+    ("while-cond", "{ind}while {x} > 100 {{ println(1) }}"),
+    ("for-start", "{ind}for q in {x}..3 {{ print(q) }}"),
+    ("for-end", "{ind}for q in 0..{x} {{ print(q) }}"),
+    ("for-step", "{ind}for q in 0..6 step {x} {{ print(q) }}"),
+    ("foreach-iterable-elem", "{ind}for q in [{x}, 2] {{ print(q) }}"),
+    ("let-init", "{ind}let zz{x} = {x} + 1\n{ind}println(zz{x})"),
+    ("return", "{ind}let rr{x} = fn() {{ return {x} }}\n{ind}println(rr{x}())"),
+    ("lambda-body", "{ind}let ll{x} = fn(a) {{ let t = a + {x}; return t }}\n{ind}println(ll{x}(1))"),
+    ("array-elem", "{ind}println([1, {x}][1])"),
+    ("vec-elem", "{ind}println(Vec[{x}][0])"),
+    ("index-index", "{ind}println(arr0[{x} % 3])"),
+    ("index-assign-index", "{ind}arr0[{x} % 3] = 1"),
+    ("index-assign-value", "{ind}arr0[0] = {x}"),
+    ("fmt-part", "{ind}println(\"v={{{x}}}\")"),
+    ("block-nested", "{ind}{{\n{ind}    {{ println({x}) }}\n{ind}}}"),
+    ("loop-body", "{ind}for q in 0..1 {{ println({x} + q) }}"),
+    ("member-callee-arg", "{ind}println(\"ab\".len() + {x})"),
+]
+
+
 def init(r):
     return r.choice(PURE) if r.random() < 0.6 else r.choice(EFFECT)
 
@@ -40,13 +71,20 @@ def gen_one(r, feats):
         out = []
         for _ in range(r.randint(1, 4)):
             c = r.random()
-            if c < 0.45:
+            if c < 0.40:
                 out.append(unused_let(ind, names))
-            elif c < 0.55:
+            elif c < 0.48:
                 x = fresh()
                 out.append(f"{ind}let {x} = {r.choice(PURE)}")
                 out.append(f"{ind}println({x})")
                 feats.add("read-let")
+            elif c < 0.60:
+                # a `let` whose ONLY read sits in one particular syntactic position
+                x = fresh()
+                pos, tmpl = r.choice(USE_AT)
+                out.append(f"{ind}let {x} = {r.choice(['2', 'k0', 'k0 + 1', '1 + 1'])}")
+                out.append(tmpl.format(ind=ind, x=x))
+                feats.add("only-read-at:" + pos)
             elif c < 0.63:
                 x = fresh()
                 out.append(f"{ind}let {x} = {init(r)}")
